@@ -404,6 +404,62 @@ fn huge_lengths(seed: u64, rep: &mut Report) {
     }
 }
 
+/// Seed corpus for the coverage-guided stage: valid encodings of every kind.
+pub fn dump_seeds(dir: &Path, seed: u64) {
+    let _ = std::fs::create_dir_all(dir);
+    let mut rng = Rng::derive(seed, 2020, 0);
+    crate::util::set_tiny(true);
+    for i in 0..48 {
+        let m = gen_message(&mut rng);
+        let mut wire = Vec::new();
+        if Codec::new().write_message(&mut wire, &m).is_ok() {
+            let _ = std::fs::write(dir.join(format!("msg{i}")), &wire);
+            let _ = std::fs::write(dir.join(format!("payload{i}")), &wire[12..]);
+        }
+        let _ = std::fs::write(dir.join(format!("sig{i}")), bincode::serialize(&gen_sig(&mut rng)).unwrap_or_default());
+        let _ = std::fs::write(dir.join(format!("delta{i}")), bincode::serialize(&gen_delta(&mut rng)).unwrap_or_default());
+    }
+    crate::util::set_tiny(false);
+}
+
+/// Replay of libFuzzer artifacts / corpus files through the ordinary oracle (allocation scope +
+/// catch_unwind): only what reproduces here is reported.
+pub fn replay_files(dir: &Path) -> Report {
+    let mut rep = Report::default();
+    let Ok(rd) = std::fs::read_dir(dir) else { return rep };
+    for e in rd.flatten() {
+        let Ok(bytes) = std::fs::read(e.path()) else { continue };
+        rep.evaluations += 1;
+        let name = e.file_name().to_string_lossy().into_owned();
+        let class = if name.starts_with("crash") { "fuzz-crash" } else if name.starts_with("oom") { "fuzz-oom" } else if name.starts_with("timeout") { "fuzz-timeout" } else { "fuzz-corpus" };
+        let b = bytes.clone();
+        judge_decode("Message::decode", class, &bytes, &mut rep, move || Message::decode(&b).map_err(|e| e.to_string()));
+        let b = bytes.clone();
+        judge_decode("Codec::read_message", class, &bytes, &mut rep, move || Codec::new().read_message(&mut Cursor::new(&b)).map_err(|e| e.to_string()));
+        let b = bytes.clone();
+        judge_decode("Signature-file-decode", class, &bytes, &mut rep, move || bincode::deserialize::<Signature>(&b).map_err(|e| e.to_string()));
+        let b = bytes.clone();
+        judge_decode("Delta-file-decode", class, &bytes, &mut rep, move || bincode::deserialize::<Delta>(&b).map_err(|e| e.to_string()));
+        if let Ok(d) = bincode::deserialize::<Delta>(&bytes) {
+            if d.ops.len() < 64 && d.ops.iter().all(|o| o.output_len() < 1 << 16) {
+                let basis = [7u8; 4096];
+                for (eng, po) in [("sync", crate::engines::patch_sync(&basis, &d)), ("async", crate::engines::patch_async(&basis, &d))] {
+                    match po.res {
+                        crate::util::Caught::Ok(Ok(())) => {
+                            if blake3::hash(&po.out).as_bytes() != d.checksum.as_bytes() {
+                                rep.violation(&format!("C20|fuzz|{eng}-patch-ok-with-wrong-bytes"), json!({"file": name}));
+                            }
+                        }
+                        crate::util::Caught::Panicked(p) => rep.violation(&format!("C20|fuzz|{eng}-patch-panic"), json!({"file": name, "panic": p})),
+                        _ => {}
+                    }
+                }
+            }
+        }
+    }
+    rep
+}
+
 // ------------------------------------------------------------------ CLI hostile files
 pub struct LimRun {
     pub code: Option<i32>,
